@@ -38,18 +38,23 @@ def gen_scenario(rng):
             pol = {"hb_gap": round(T * rng.choice([0.25, 0.5]), 3), "hang_at": t0}
             if rng.random() < 0.4:
                 pol["ignore_abrt"] = True
+            if rng.random() < 0.5:
+                pol["ignore_term"] = True     # a process that is really stuck does not act on TERM either
             if i < workers:
                 nhung += 1
                 horizon = max(horizon, t0)
         spawn_policy[str(i)] = pol
     events = []
     t = 0.0
-    for _ in range(rng.choice([0, 0, 1, 2])):
-        t += rng.choice([0.5, 1.5, 3.0])
-        if rng.random() < 0.5:
+    for _ in range(rng.choice([0, 0, 1, 2, 2])):
+        t += rng.choice([0.2, 0.5, 1.5, 3.0])
+        k2 = rng.random()
+        if k2 < 0.35:
             events.append({"type": "worker_exit", "which": rng.randint(0, 3), "signal": 9, "at": t})
+        elif k2 < 0.8:
+            events.append({"type": "signal", "sig": rng.choice(["TTIN", "TTOU", "TTOU"]), "at": t})
         else:
-            events.append({"type": "signal", "sig": rng.choice(["TTIN", "TTOU"]), "at": t})
+            events.append({"type": "signal", "sig": "HUP", "new_workers": workers, "at": t})
     T = timeout if timeout and timeout < 100 else (2 if not timeout else timeout)
     end = max(t, horizon) + (T if T < 100 else T) + 8 + (T if T < 100 else 0)
     events.append({"type": "end", "at": round(end, 2)})
@@ -86,7 +91,7 @@ class Monitor:
             self.kill_at.setdefault(pr.pid, k.now)
         if not timeout:
             self.v.append(("killed-with-timeout-disabled", "%s sent to pid %d although timeout=0" % (name, pr.pid)))
-        elif pr.state == "run" and age <= timeout + 1e-9:
+        elif pr.state == "run" and age < timeout - 1e-6:      # strictly younger than the timeout (equality is the boundary)
             self.v.append(("healthy-worker-killed/" + name,
                            "%s sent to pid %d whose last heartbeat is %.3f s old (timeout %s, heartbeat gap %s)" % (
                                name, pr.pid, age, timeout, pr.policy.get("hb_gap"))))
@@ -134,7 +139,10 @@ class Monitor:
         tgt = sc["workers"]
         for e in k.log:
             if e[1] == "signal_to_master":
-                tgt = tgt + 1 if e[2] == "TTIN" else (tgt - 1 if e[2] == "TTOU" and tgt > 1 else tgt)
+                if e[2] == "HUP" and e[3] is not None:
+                    tgt = e[3]
+                else:
+                    tgt = tgt + 1 if e[2] == "TTIN" else (tgt - 1 if e[2] == "TTOU" and tgt > 1 else tgt)
         run = [p for p in k.procs.values() if p.state == "run"]
         eff = [p for p in run if not any(s in (TERM, KILL, ABRT) for _, s in p.sent)]
         last_activity = max([e[0] for e in k.log if e[1] in ("fork", "kill", "child_died", "reaped")] or [k.t0])
